@@ -12,7 +12,7 @@ git -C /repo checkout -- .
 # the simulator binary was built from the changed tree: rebuild it from the restored one, so that
 # a later direct use of sim/target/release/sim does not run the change (NO_REBUILD=1 to skip)
 if [ -z "$NO_REBUILD" ]; then ./check build > /dev/null 2>&1; fi
-grep -E "VIOLATION|KNOWN-FINDING|HARNESS|violation signature|^sim:   " /tmp/try_mutant.$$.log | cut -c1-260 | head -12
+grep -E "VIOLATION|KNOWN-FINDING|HARNESS|violation signature|^sim:   " /tmp/try_mutant.$$.log | cut -c1-900 | head -12
 tail -1 /tmp/try_mutant.$$.log | cut -c1-200
 rm -f /tmp/try_mutant.$$.log
 if [ $RC -eq 1 ]; then echo "RESULT: CAUGHT ($P, $D)"; elif [ $RC -eq 0 ]; then echo "RESULT: MISSED ($P, $D)"; else echo "RESULT: HARNESS ERROR rc=$RC ($P, $D)"; fi
